@@ -4,6 +4,7 @@ package main
 
 import (
 	"fmt"
+	"strings"
 
 	. "verifharness/hlib"
 )
@@ -67,6 +68,68 @@ func runC18(e *env, n int) {
 		}
 		u.path, u.kind, u.n = path, kind, sz
 		judgeC18(e, f, u, rel, before)
+	}
+	c18BackendHeld(e)
+}
+
+// c18BackendHeld: the limit must not depend on the state of a proxy backend.  One more fixture per storage
+// mode whose backend (max_proxy_blob_size unlimited) reports the blob present; an upload of that blob, larger
+// than max_blob_size, through every path that declares a digest is still refused with a client error and
+// leaves nothing behind.  Direct oracle only (the wired configuration term of the model has no backend).
+func c18BackendHeld(e *env) {
+	r := e.r
+	px := &tableProxy{has: map[string]int64{}}
+	fxProxy, fxMaxProxy = px, 1<<40
+	defer func() { fxProxy, fxMaxProxy = nil, 0 }()
+	for _, mode := range []string{"zstd", "uncompressed"} {
+		L := int64(3000 + r.Intn(2000))
+		f := newFixture(mode, []string{"go", "cgo"}[r.Intn(2)], L)
+		for _, over := range []int64{1, 5, 4000} {
+			for _, path := range []string{"bs", "bsz", "http", "httpz", "batch", "batchz"} {
+				b := freshBlob(r, int(L+over), true)
+				px.mu.Lock()
+				px.has[b.hash] = L + over
+				px.mu.Unlock()
+				before := f.numItems()
+				z := strings.HasSuffix(path, "z")
+				wire := b.data
+				if z {
+					wire = zwire(r, b.data, "")
+				}
+				var got cls
+				switch path {
+				case "bs", "bsz":
+					got, _ = f.bsWrite([]wmsg{{bsWriteName(z, "zstd", b.hash, L+over), 0, wire, true}}, -1)
+				case "http", "httpz":
+					o := httpOpts{abortAt: -1}
+					if z {
+						o.ce, o.xdigest = "zstd", fmt.Sprintf("%d", L+over) // the logical size is declared
+					}
+					got = f.httpPut(b.hash, wire, o)
+				default:
+					comp := int32(0)
+					if z {
+						comp = 3
+					}
+					per, st := f.batchUpdate([]buEntry{{b.hash, L + over, comp, wire}})
+					got = st
+					if st == cOK && len(per) == 1 {
+						got = per[0]
+					}
+				}
+				text := fmt.Sprintf("%s backend holds %s/%d (max_proxy_blob_size unlimited); upload of that blob through %s, max_blob_size %d -> %s; local items %d -> %d",
+					f.label(), b.hash, L+over, path, L, got, before, f.numItems())
+				e.rep.Evaluations++
+				e.rep.Count("c18.backend-held." + path + "." + string(got))
+				if got != cBad {
+					e.rep.Fail(0, fmt.Sprintf("C18 item larger than max_blob_size that the proxy backend already holds answered with %s instead of a client error (path %s)", got, path), text)
+				}
+				if f.numItems() != before {
+					e.rep.Fail(0, "C18 refused oversize upload of a backend-held blob changed the number of stored items", text)
+				}
+			}
+		}
+		f.close()
 	}
 }
 
